@@ -70,6 +70,10 @@ def attrs_of(tok, k=0, paint_attrs=None):
         a.append(("points", " ".join("%s,%s" % (num(rat(p[0])), num(rat(p[1]))) for p in geo)))
     elif tag == "path":
         a.append(("d", PATH_D[geo[0]]))
+    elif tag == "image":
+        for nm, l in zip(("x", "y", "width", "height"), geo):
+            put(nm, l)
+        a.append(("xlink:href", "picture.png"))
     if paint_attrs:
         a += paint_attrs(tok)
     return a
